@@ -9,6 +9,7 @@ import (
 	"os"
 	"path/filepath"
 	"sort"
+	"strconv"
 	"strings"
 	"sync"
 	"time"
@@ -52,7 +53,7 @@ func repoRoot() string {
 
 func DefaultConfig() Config {
 	return Config{
-		RepoDir: repoRoot(), HarnessDir: filepath.Join(verifRoot(), "harness"), Workers: 16,
+		RepoDir: repoRoot(), HarnessDir: filepath.Join(verifRoot(), "harness"), Workers: workersFromEnv(),
 		FeasTimeoutMs: 2000, AssertTimeoutMs: 60000, Unwind: 64, InstrBudget: 30000000,
 		MaxPaths: 200000, MaxAlloc: 1 << 18, MaxSymIndex: 256, MapOrderFork: true,
 		Solver: "z3-new", MaxViolations: 1, TimeBudget: 10 * time.Minute,
@@ -71,51 +72,51 @@ type Program struct {
 var execPkgs = map[string]bool{
 	"github.com/pascaldekloe/mqtt":          true,
 	"github.com/pascaldekloe/mqtt/mqtttest": true,
-	"bufio":           true,
-	"errors":          true,
-	"io":              true,
-	"hash/fnv":        true,
-	"encoding/binary": true,
-	"unicode/utf8":    true,
-	"bytes":           true,
-	"strconv":         true,
-	"sync/atomic":     true,
-	"math/bits":       true,
-	"internal/byteorder": true,
-	"slices":             true,
-	"maps":               true,
-	"cmp":                true,
-	"strings":            true,
-	"unicode":            true,
-	"iter":               true,
-	"sort":               true,
-	"math":               true,
-	"container/list":     true,
-	"unicode/utf16":      true,
-	"internal/stringslite": true,
-	"internal/bytealg":   false,
+	"bufio":                                 true,
+	"errors":                                true,
+	"io":                                    true,
+	"hash/fnv":                              true,
+	"encoding/binary":                       true,
+	"unicode/utf8":                          true,
+	"bytes":                                 true,
+	"strconv":                               true,
+	"sync/atomic":                           true,
+	"math/bits":                             true,
+	"internal/byteorder":                    true,
+	"slices":                                true,
+	"maps":                                  true,
+	"cmp":                                   true,
+	"strings":                               true,
+	"unicode":                               true,
+	"iter":                                  true,
+	"sort":                                  true,
+	"math":                                  true,
+	"container/list":                        true,
+	"unicode/utf16":                         true,
+	"internal/stringslite":                  true,
+	"internal/bytealg":                      false,
 }
 
 // Individual functions of other packages executed from SSA.
 var execFuncs = map[string]bool{
-	"(*net.Buffers).WriteTo": true,
-	"(*net.Buffers).consume": true,
+	"(*net.Buffers).WriteTo":   true,
+	"(*net.Buffers).consume":   true,
 	"(*fmt.wrapError).Unwrap":  true,
 	"(*fmt.wrapErrors).Unwrap": true,
 	"(*fmt.wrapError).Error":   true,
 	"(*fmt.wrapErrors).Error":  true,
-	"(time.Duration).Seconds": false,
+	"(time.Duration).Seconds":  false,
 }
 
 // Packages whose init function is executed (lazily, once per path).
 var initPkgs = map[string]bool{
 	"github.com/pascaldekloe/mqtt":          true,
 	"github.com/pascaldekloe/mqtt/mqtttest": true,
-	"bufio":        true,
-	"io":           true,
-	"unicode/utf8": true,
-	"strconv":      true,
-	"hash/fnv":     true,
+	"bufio":                                 true,
+	"io":                                    true,
+	"unicode/utf8":                          true,
+	"strconv":                               true,
+	"hash/fnv":                              true,
 }
 
 func LoadProgram(cfg Config) (*Program, error) {
@@ -250,31 +251,31 @@ func NewEngine(cfg Config, P *Program, harness string) (*Engine, error) {
 
 // HarnessResult aggregates all paths of one harness.
 type HarnessResult struct {
-	Harness     string
-	Paths       int
-	Completed   int
-	Infeasible  int
-	Violations  []Violation
-	Inconclusive []string
-	Unsupported []string
-	UnwindFails []string
-	Reach       map[string]int
-	Asserts     int
+	Harness        string
+	Paths          int
+	Completed      int
+	Infeasible     int
+	Violations     []Violation
+	Inconclusive   []string
+	Unsupported    []string
+	UnwindFails    []string
+	Reach          map[string]int
+	Asserts        int
 	AssertsTrivial int
-	Instrs      int
-	FuncsHit    map[string]int
-	StubsHit    map[string]int
-	Assumes     map[string]int
-	SolverCalls int
-	SolverSecs  float64
-	MaxLoop     int
-	Samples     []string
-	WallSecs    float64
-	Forks       int
-	Durations   map[string]int
-	Truncated   bool
-	CrossChecked int
-	CrossUnknown int
+	Instrs         int
+	FuncsHit       map[string]int
+	StubsHit       map[string]int
+	Assumes        map[string]int
+	SolverCalls    int
+	SolverSecs     float64
+	MaxLoop        int
+	Samples        []string
+	WallSecs       float64
+	Forks          int
+	Durations      map[string]int
+	Truncated      bool
+	CrossChecked   int
+	CrossUnknown   int
 }
 
 func (e *Engine) Explore() *HarnessResult {
@@ -498,3 +499,13 @@ func sortedCounts(m map[string]int) []string {
 }
 
 var _ = types.Typ
+
+// workersFromEnv: 16 workers (one solver process each) unless VERIF_WORKERS says otherwise.
+func workersFromEnv() int {
+	if v := os.Getenv("VERIF_WORKERS"); v != "" {
+		if n, err := strconv.Atoi(v); err == nil && n > 0 && n <= 64 {
+			return n
+		}
+	}
+	return 16
+}
